@@ -3,7 +3,7 @@
 From Coq Require Import String.
 From Gemato Require Import Py.PyLit.
 From Gemato Require Import Py.PyStr Py.PyTime Gen.PyFacts Gen.Tables Gen.Util
-  Model.Entry Model.Text Model.OpenPGP Model.Hash Spec.Cleartext Spec.Accept Exec.Sx Exec.Oracles.
+  Model.Entry Model.Text Model.OpenPGP Model.Hash Model.FindTop Spec.Cleartext Spec.Accept Exec.Sx Exec.Oracles.
 Open Scope N_scope.
 
 Definition is_cmd (c : ustr) (s : string) : bool := ustr_eqb c (u s).
@@ -25,6 +25,31 @@ Definition dec_otable (x : sx) : otable :=
   map (fun e => match x_list e with [n; c; d] => (x_str n, x_str c, x_str d) | _ => ([], [], []) end) (x_list x).
 Definition enc_hval (v : hval) : sx := match v with HStr s => SS s | HInt n => sN n end.
 Definition enc_hres (r : list (list N * hval)) : sx := SL (map (fun kv => SL [SS (fst kv); enc_hval (snd kv)]) r).
+
+Definition dec_exn_name (x : sx) : exn :=
+  let s := x_str x in
+  if ustr_eqb s (u "ManifestSyntaxError") then XSyntax
+  else if ustr_eqb s (u "ManifestUnsignedData") then XUnsigned
+  else if ustr_eqb s (u "BadCompressedFile") then XBadCompressed
+  else if ustr_eqb s (u "UnicodeError") then XInternal IUnicode
+  else XOS (dec_errno x).
+Definition dec_fres (x : sx) : fres :=
+  match x_list x with
+  | [k; d; t] => FText (x_N d) (x_str t)
+  | [k; e] => FErr (dec_exn_name e)
+  | _ => FAbsent
+  end.
+Definition dec_level (x : sx) : level :=
+  match x_list x with
+  | [st; files] =>
+      mk_level (match x_list st with
+                | [d; r] => Ok (x_N d, x_bool r)
+                | [e] => Err (dec_exn_name e)
+                | _ => Err XOutOfFuel
+                end)
+               (map (fun f => match x_list f with [n; v] => (x_str n, dec_fres v) | _ => ([], FAbsent) end) (x_list files))
+  | _ => mk_level (Err XOutOfFuel) []
+  end.
 
 Definition run_text (c : ustr) (args : list sx) : option sx :=
   match args with
@@ -64,6 +89,8 @@ Definition run_text (c : ustr) (args : list sx) : option sx :=
       else if is_cmd c "entry_eqb" then Some (sbool (entry_eqb (dec_entry a) (dec_entry b)))
       else if is_cmd c "entry_ltb" then Some (sbool (entry_ltb (dec_entry a) (dec_entry b)))
       else if is_cmd c "ustr_ltb" then Some (sbool (ustr_ltb (x_str a) (x_str b)))
+      else if is_cmd c "find_path_entry" then Some (sopt enc_entry (find_path_entry (map dec_entry (x_list a)) (x_str b)))
+      else if is_cmd c "find_dist_entry" then Some (sopt enc_entry (find_dist_entry (map dec_entry (x_list a)) (x_str b)))
       else if is_cmd c "path_join" then Some (SS (path_join (x_str a) (x_str b)))
       else if is_cmd c "encode_sweep" then Some (encode_sweep (x_N a) (x_nat b))
       else if is_cmd c "verify_file" then
@@ -80,6 +107,11 @@ Definition run_text (c : ustr) (args : list sx) : option sx :=
       if is_cmd c "hash_file" then
         Some (enc_res enc_hres (hash_file (table_hashlib (dec_otable g)) (x_strs f) (x_strs a)
                                           (map x_str (x_list b)) (x_str d) (x_N e)))
+      else None
+  | [a; b; d; e] =>
+      if is_cmd c "find_top_level" then
+        Some (enc_res (sopt (fun r => SL [SN (Z.of_nat (fst r)); SS (snd r)]))
+                      (find_top_level (map dec_level (x_list a)) (x_strs b) (x_bool d) (x_bool e)))
       else None
   | [a; b; d] =>
       if is_cmd c "c04_b" then Some (sbool (c04_b (x_str a) (map dec_entry (x_list b)) (x_str d)))
